@@ -119,3 +119,99 @@ class CallGraph:
             out.append(q.split("::")[1])
             q = seen.get(q, (None, 0))[0]
         return list(reversed(out))
+
+
+SCHEMA_EXC = ("SchemaError", "SchemaErrors", "ParserError", "SchemaDefinitionError", "SchemaInitError")
+
+
+def explicit_raises(f: FuncInfo):
+    """(class name, raise node) for `raise X(...)` statements of f (nested defs excluded)."""
+    out = []
+    for s in walk_no_nested(f.node):
+        if isinstance(s, ast.Raise) and s.exc is not None:
+            e = s.exc.func if isinstance(s.exc, ast.Call) else s.exc
+            name = e.attr if isinstance(e, ast.Attribute) else (e.id if isinstance(e, ast.Name) else None)
+            if name:
+                out.append((name, s))
+    return out
+
+
+class RaiseSets:
+    """Which pandera exception classes may propagate out of each function
+    (explicit raises + callees, minus what enclosing try bodies catch)."""
+
+    def __init__(self, cg: CallGraph, classes=SCHEMA_EXC):
+        self.cg = cg
+        self.classes = set(classes)
+        self.sets: Dict[str, Set[str]] = {}
+
+    def compute(self, funcs: List[FuncInfo], max_rounds=30):
+        for f in funcs:
+            self.sets[f.qual] = set()
+        pre = {}
+        for f in funcs:
+            own = set()
+            for name, node in explicit_raises(f):
+                if name in self.classes:
+                    c = caught_at(node, f.node)
+                    if name not in c and not (c & BROAD):
+                        own.add(name)
+            edges = []
+            for call, callees, _ in self.cg.edges(f):
+                c = caught_at(call, f.node) if isinstance(call, ast.Call) else frozenset()
+                if c & BROAD:
+                    continue
+                edges.append(([g.qual for g in callees], c))
+            pre[f.qual] = (own, edges)
+        changed = True
+        rounds = 0
+        while changed and rounds < max_rounds:
+            changed = False
+            rounds += 1
+            for f in funcs:
+                own, edges = pre[f.qual]
+                cur = set(own)
+                for quals, c in edges:
+                    for q in quals:
+                        for name in self.sets.get(q, ()):
+                            if name not in c:
+                                cur.add(name)
+                if cur != self.sets[f.qual]:
+                    self.sets[f.qual] = cur
+                    changed = True
+        return self
+
+    def compute_slow(self, funcs: List[FuncInfo], max_rounds=30):
+        for f in funcs:
+            self.sets[f.qual] = set()
+        changed = True
+        rounds = 0
+        while changed and rounds < max_rounds:
+            changed = False
+            rounds += 1
+            for f in funcs:
+                cur = set()
+                for name, node in explicit_raises(f):
+                    if name in self.classes:
+                        c = caught_at(node, f.node)
+                        if name not in c and not (c & BROAD):
+                            cur.add(name)
+                for call, callees, _ in self.cg.edges(f):
+                    c = caught_at(call, f.node) if isinstance(call, ast.Call) else frozenset()
+                    for g in callees:
+                        for name in self.sets.get(g.qual, ()):
+                            if name not in c and not (c & BROAD):
+                                cur.add(name)
+                # a handler that re-raises lets the class through; handlers raising a new class are explicit raises
+                if cur != self.sets[f.qual]:
+                    self.sets[f.qual] = cur
+                    changed = True
+        return self
+
+    def of_call(self, f: FuncInfo, call: ast.Call) -> Set[str]:
+        out = set()
+        for c, callees, _ in self.cg.edges(f):
+            if c is call:
+                for g in callees:
+                    out |= self.sets.get(g.qual, set())
+        return out
